@@ -2447,7 +2447,89 @@ func ruleCacheLatest(c *Ctx) {
 // nothing about the witness: the same block (transaction) with any other witness has the same hash, is accepted and
 // is what gets stored. A shortcut keyed by a hash has to look at the witness it is about to store - compare it with
 // the verified copy, or verify it.
+// proposalShortcutLooksAtWitness: the consensus service's verifyBlock has the same shortcut as AddBlock - a
+// transaction of the proposal that the node's pool holds is not verified again - and the same trap: the pool is asked
+// by hash, and the hash covers no witness. The transactions of a proposal are fetched from peers and reach dBFT
+// before anybody verified them (Server.txHandlerLoop), so a copy with a garbage witness is approved once the valid
+// copy is pooled, M validators sign a block that every ledger - their own included - refuses (finding 104). The
+// condition under which verifyBlock puts a transaction into its scratch pool without Chain.PoolTx reads the
+// witnesses (Scripts), itself or through the function it calls.
+func proposalShortcutLooksAtWitness(c *Ctx) {
+	fd := c.P.Func("pkg/consensus", "service", "verifyBlock")
+	if fd == nil {
+		c.Lost("witness-covered-shortcut.verifyBlock.anchor", "service.verifyBlock not found")
+		return
+	}
+	f := c.P.NewFuncCFG(fd)
+	info := f.Info
+	mentionsScripts := func(n ast.Node, inf *types.Info) bool {
+		hit := false
+		ast.Inspect(n, func(x ast.Node) bool {
+			if se, ok := x.(*ast.SelectorExpr); ok && se.Sel.Name == "Scripts" {
+				if v, ok := inf.ObjectOf(se.Sel).(*types.Var); ok && v.IsField() {
+					hit = true
+				}
+			}
+			return true
+		})
+		return hit
+	}
+	found := false
+	ast.Inspect(fd.Decl.Body, func(x ast.Node) bool {
+		is, ok := x.(*ast.IfStmt)
+		if !ok || is.Else == nil {
+			return true
+		}
+		// the if whose body adds to the scratch pool directly and whose else goes through PoolTx
+		direct, full := false, false
+		ast.Inspect(is.Body, func(y ast.Node) bool {
+			if ce, ok := y.(*ast.CallExpr); ok && strings.HasSuffix(f.calleeSym(ce), "mempool.(*Pool).Add") {
+				direct = true
+			}
+			return true
+		})
+		ast.Inspect(is.Else, func(y ast.Node) bool {
+			if ce, ok := y.(*ast.CallExpr); ok {
+				if fn := calleeFunc(info, ce); fn != nil && fn.Name() == "PoolTx" {
+					full = true
+				}
+			}
+			return true
+		})
+		if !direct || !full {
+			return true
+		}
+		found = true
+		looks := mentionsScripts(is.Cond, info)
+		ast.Inspect(is.Cond, func(y ast.Node) bool {
+			if ce, ok := y.(*ast.CallExpr); ok {
+				if fn := calleeFunc(info, ce); fn != nil {
+					if d := c.P.DeclOf(fn); d != nil && d.Decl.Body != nil && mentionsScripts(d.Decl.Body, d.Pkg.TypesInfo) {
+						looks = true
+					}
+				}
+			}
+			return true
+		})
+		if looks {
+			c.OK("witness-covered-shortcut.verifyBlock", c.P.Pos(is.Pos()), "a transaction of the proposal skips verification only if the pooled copy has the same witnesses")
+		} else {
+			c.Fail("witness-covered-shortcut.verifyBlock", c.P.Pos(is.Pos()), fmt.Sprintf("service.verifyBlock takes a transaction of the proposal for verified under `%s`, which asks the pool by hash: the hash of a transaction does not cover its witnesses, and the copies dBFT works with were fetched from peers and never verified. With the valid copy in the pool, a copy carrying a garbage witness is approved, the block is committed by M validators and refused by every ledger, their own included", types.ExprString(is.Cond)))
+		}
+		return true
+	})
+	if !found {
+		c.Lost("witness-covered-shortcut.verifyBlock.shape", "the pooled-transaction shortcut of verifyBlock (scratch pool Add vs Chain.PoolTx) was not found")
+	}
+}
+
 func ruleWitnessCoveredShortcut(c *Ctx) {
+	if c.Property == "C19" || c.Property == "C07" || c.Property == "C06" {
+		proposalShortcutLooksAtWitness(c)
+		if c.Property != "C06" {
+			return
+		}
+	}
 	fd := c.P.Func("pkg/core", "Blockchain", "AddBlock")
 	if fd == nil {
 		c.Lost("witness-covered-shortcut.anchor", "Blockchain.AddBlock not found")
